@@ -44,7 +44,8 @@ type rioCase struct {
 	DirectIO    bool     `json:"direct_io,omitempty"`
 	ReadChunk   int      `json:"read_chunk"` // 0 = none, else max chunk the disk returns per read
 	Records     []rioRec `json:"records"`
-	SkipMask    uint64   `json:"skip_mask"` // reader program: bit i set = SkipNext for record i
+	SkipMask    uint64   `json:"skip_mask"`             // reader program: bit i set = SkipNext for record i
+	DirectRead  bool     `json:"direct_read,omitempty"` // sequential reader through the direct-I/O factory (stub: flag dropped)
 }
 
 func rioPayload(i int, r rioRec) []byte {
@@ -102,6 +103,10 @@ func rioGen(r *rand.Rand, mode string, thorough bool) rioCase {
 	if mode == "control" && r.Intn(6) == 0 {
 		c.DirectIO = true
 		c.WriteBuf = pick(r, 4096, 8192)
+	}
+	if mode == "control" && r.Intn(8) == 0 {
+		c.DirectRead = true
+		c.ReadBuf = pick(r, 4096, 8192)
 	}
 	n := 1 + r.Intn(10)
 	if thorough {
@@ -233,7 +238,11 @@ func rioControl(c *Ctx, rc rioCase, tape *simrt.Tape, count bool) (vs []rioV, ev
 	// sequential reader, plain
 	w.ReadChunkMax = rc.ReadChunk
 	readerOpts := func() []recordio.FileReaderOption {
-		return []recordio.FileReaderOption{recordio.ReaderPath(path), recordio.ReaderBufferSizeBytes(rc.ReadBuf)}
+		o := []recordio.FileReaderOption{recordio.ReaderPath(path), recordio.ReaderBufferSizeBytes(rc.ReadBuf)}
+		if rc.DirectRead {
+			o = append(o, recordio.ReaderIoFactory(recordio.DirectIOFactory{}))
+		}
+		return o
 	}
 	rd, err := recordio.NewFileReader(readerOpts()...)
 	if err == nil {
